@@ -344,7 +344,8 @@ std::string describe_program(OrcProgram *p) {
 // ---------------------------------------------------------------------------
 void make_inputs(const ProgMeta &meta, uint64_t dataseed, int nreq, RunData &d) {
   Rng r(mix2(dataseed, 0xda7a));
-  int n = nreq > 0 ? nreq : 1 + (int)r.below(70);
+  int n = 1 + (int)r.below(70);  // always drawn, so that the data stream does not depend on nreq
+  if (nreq > 0) n = nreq;
   if (meta.n_minimum > 0 && n < meta.n_minimum) n = meta.n_minimum;
   if (meta.n_maximum > 0 && n > meta.n_maximum) n = meta.n_maximum;
   if (meta.n_multiple > 1) { n = (n / meta.n_multiple) * meta.n_multiple; if (n == 0) n = meta.n_multiple; }
